@@ -66,10 +66,10 @@ Proof. destruct o; simpl; [apply bytes_eqb_refl | reflexivity]. Qed.
 Theorem pg_model_ok (i : pg_in) : 0 < pg_size i -> pg_prop_ok i (pg_model i) = true.
 Proof.
   intros Hs. unfold pg_model.
-  pose proof (list_pages_complete (seq 0 (pg_n i)) (pg_flt i) (pg_size i) Hs) as H.
-  rewrite seq_length in H. rewrite H. unfold pg_prop_ok.
+  pose proof (list_pages_complete (map N.of_nat (seq 0 (pg_n i))) (pg_flt i) (pg_size i) Hs) as H.
+  rewrite map_length, seq_length in H. rewrite H. unfold pg_prop_ok.
   cbn [pg_result pg_reqs pg_fuel_out negb andb].
-  rewrite (list_eqb_refl Nat.eqb Nat.eqb_refl). cbn [andb].
+  rewrite (list_eqb_refl N.eqb N.eqb_refl). cbn [andb].
   rewrite !map_map. cbn [to_obs_req mkreq o_page q_page]. rewrite map_id.
   rewrite (list_eqb_refl Nat.eqb Nat.eqb_refl). cbn [andb].
   apply forallb_forall. intros q Hq. apply in_map_iff in Hq. destruct Hq as [p [<- _]].
@@ -78,7 +78,7 @@ Qed.
 
 Example pg_nonvacuous :
   pg_model {| pg_n := 7; pg_size := 3; pg_flt := {| f_name := None; f_regex := Some [84;114;117;101]%N |} |}
-  = {| pg_result := [0;1;2;3;4;5;6];
+  = {| pg_result := [0;1;2;3;4;5;6]%N;
        pg_reqs := map (fun p => {| o_page := p; o_size := 3; o_name := None;
                                    o_regex := Some [116;114;117;101]%N; o_pagination := true |}) [1;2;3];
        pg_fuel_out := false |}.
